@@ -23,7 +23,7 @@ ASSUMPTIONS = [
     "data content is the position pattern 1..N (content independent code)",
     "buffered wrappers (io.BufferedReader/TextIOWrapper) are represented by the io.RawIOBase.readinto contract they rely on",
 ]
-OUTSIDE = ["readline/readlines/iteration (C, defined on read)", "data longer than the bound", "more operations than the bound"]
+OUTSIDE = ["CONTENT_LENGTH texts longer than 3 characters", "readline/readlines/iteration (C, defined on read)", "data longer than the bound", "more operations than the bound"]
 
 
 class Raw:
@@ -128,8 +128,10 @@ def body_limited(I, X, N=6, kinds=("readinto", "read"), has_readinto=True):
     exc = None
     ok = True
     ops = []
+    pos_before = 0
     for j, kind in enumerate(kinds):
         ops.append(kind)
+        pos_before = raw.pos
         try:
             if kind == "readinto":
                 size = X.int(f"size{j}", 1, N + 1)
@@ -164,7 +166,8 @@ def body_limited(I, X, N=6, kinds=("readinto", "read"), has_readinto=True):
         # only when the client really sent less than declared (or the transport failed)
         ok = pand(ok, por(raw.faulted, pand(raw.pos >= L, raw.pos < limit)), pnot(pand(is_max, pnot(raw.faulted))))
     if exc == "RequestEntityTooLarge":
-        ok = pand(ok, is_max, raw.pos >= limit)
+        # only for a read attempted when the maximum had already been reached
+        ok = pand(ok, is_max, raw.pos >= limit, pos_before >= limit)
     if raw.faulted:
         ok = pand(ok, exc == "ClientDisconnected")
     obs = {"got": got, "pos": raw.pos, "exc": exc, "ops": ops, "calls": raw.calls}
@@ -172,6 +175,13 @@ def body_limited(I, X, N=6, kinds=("readinto", "read"), has_readinto=True):
 
 
 KINDS = ["readinto", "read", "readall", "exhaust"]
+
+
+def body_input_stream(I, X, cl_kind="text"):
+    """wsgi.get_input_stream decision table (shared with C10)"""
+    from harness.c10 import body_input_stream as b
+
+    return b(I, X, cl_kind)
 
 
 def obligations(tier, seed):
@@ -190,4 +200,7 @@ def obligations(tier, seed):
                 "opts": {"ctx": {"fork_indices": False}, "budget_s": 600 if tier == "quick" else 3000},
                 "witness": kinds[0] == "readinto",
             })
+    for k in ("text", "absent"):
+        out.append({"name": f"input_stream[{k}]", "body": "body_input_stream", "params": {"cl_kind": k},
+                    "opts": {"budget_s": 900, "ctx": {"max_cp": 0x7FF}}, "witness": k == "text"})
     return out
